@@ -15,6 +15,7 @@ import (
 func init() {
 	generators["c06"] = genC06
 	generators["c07"] = genC07
+	generators["c07accept"] = genC07accept
 	generators["c08"] = genC08
 	generators["c09"] = genC09
 	generators["c10"] = genC10
@@ -149,6 +150,37 @@ func genC07(g *Gen) {
 			s.send(2, s.req("normal", "w"))
 			s.op("close 0")
 			s.op("close 2")
+			s.emit(g)
+		}
+	}
+}
+
+// C07 (continued): descriptor exhaustion at accept time, with bystanders
+func genC07accept(g *Gen) {
+	for _, busy := range []bool{false, true} {
+		for _, twice := range []bool{false, true} {
+			s := newScen("fixed")
+			s.op("run 1 1")
+			s.op("connect") // 0: bystander
+			if busy {
+				s.send(0, s.req("normal", "b9", "w"))
+			}
+			s.op("accepterr") // 1: the client whose accept failed
+			if twice {
+				s.op("accepterr") // 2
+			}
+			s.send(0, s.req("normal", "w"))
+			s.send(1, s.req("normal", "w"))
+			if busy {
+				s.op("release 9")
+			}
+			s.op("connect")
+			last := 2
+			if twice {
+				last = 3
+			}
+			s.send(last, s.req("normal", "w"))
+			s.op("stop")
 			s.emit(g)
 		}
 	}
@@ -407,6 +439,15 @@ func genC17(g *Gen) {
 	s.op("run 1 1")
 	s.op("connect")
 	s.send(0, s.req("normal", "w"))
+	s.op("stop")
+	s.emit(g)
+	// Ready stays true across a failed accept, and stays truthful: the client is served
+	s = newScen("fixed")
+	s.op("run 1 1")
+	s.op("accepterr")
+	s.send(0, s.req("normal", "w"))
+	s.op("connect")
+	s.send(1, s.req("normal", "w"))
 	s.op("stop")
 	s.emit(g)
 	s = newScen("fixed:addr=busy")
